@@ -316,6 +316,37 @@ class SymBool:
     def as_real(self):
         return SymReal(z3.If(self.t, z3.RealVal(1), z3.RealVal(0)), nl=self.nl)
 
+    # numpy's bool arithmetic with numbers (1.0 - (x > 0), mask * values, ...): True counts as 1, False as 0
+    def __add__(self, o):
+        return self.as_real() + (o.as_real() if isinstance(o, SymBool) else o)
+
+    def __radd__(self, o):
+        return o + self.as_real()
+
+    def __sub__(self, o):
+        return self.as_real() - (o.as_real() if isinstance(o, SymBool) else o)
+
+    def __rsub__(self, o):
+        return o - self.as_real()
+
+    def __mul__(self, o):
+        return self.as_real() * (o.as_real() if isinstance(o, SymBool) else o)
+
+    def __rmul__(self, o):
+        return o * self.as_real()
+
+    def __truediv__(self, o):
+        return self.as_real() / (o.as_real() if isinstance(o, SymBool) else o)
+
+    def __rtruediv__(self, o):
+        return o / self.as_real()
+
+    def __neg__(self):
+        return -self.as_real()
+
+    def __float__(self):
+        return float(bool(self))
+
     def __repr__(self):
         return f"B(term#{self.t.hash() & 0xFFFFFF:06x})"
 
